@@ -44,7 +44,7 @@ type cssDecl struct{ prop, val string }
 // top-level ':' separates property from value.
 func splitStyle(s string) (decls []cssDecl, garbage []string) {
 	var chunks []string
-	depth := 0
+	var open []byte // expected closers of the blocks that are open
 	start := 0
 	i := 0
 	for i < len(s) {
@@ -75,13 +75,17 @@ func splitStyle(s string) (decls []cssDecl, garbage []string) {
 				i += j + 4
 			}
 			continue
-		case ch == '(' || ch == '[' || ch == '{':
-			depth++
+		case ch == '(':
+			open = append(open, ')')
+		case ch == '[':
+			open = append(open, ']')
+		case ch == '{':
+			open = append(open, '}')
 		case ch == ')' || ch == ']' || ch == '}':
-			if depth > 0 {
-				depth--
+			if len(open) > 0 && open[len(open)-1] == ch {
+				open = open[:len(open)-1]
 			}
-		case ch == ';' && depth == 0:
+		case ch == ';' && len(open) == 0:
 			chunks = append(chunks, s[start:i])
 			start = i + 1
 		}
@@ -239,6 +243,7 @@ var c10Decls = []declFrag{
 	dirty("color: \\72  ed"), dirty("color: r\\65\t\td"), dirty("color: \\72\n\ned"),
 	dirty(`font-family: x\\\ `), dirty(`color: \ `), dirty(`color: red\21 important`), dirty(`color: red ! important`), dirty(`color: red !important !important`),
 	dirty(`background: u\rl(x)`), dirty(`background: \55rl(x)`), dirty(`color: EXPRESSION(x)`), dirty(`font-family: a(/*)*/`), dirty(`font-family: a/*(*/`),
+	dirty(`font-family: [a(b]c)`), dirty(`font-family: 'it\'s'`), dirty(`font-family: "a\"b" x`),
 	dirty(`color: a(`), dirty(`color: b)`), dirty(`font-family: [x`), dirty(`font-family: "a`), dirty(`color: rgb(1`),
 	dirty(`font-family: \110000 x`), dirty(`font-family: \0 `), dirty(`color:red`), dirty(`color : red`), dirty(`color: "red"`),
 }
